@@ -272,7 +272,7 @@ func copyShapeOf(p *Pkg, fd *ast.FuncDecl) string {
 			continue
 		}
 		sh := litFieldShape(p, kv.Value, rv)
-		if id, ok := kv.Value.(*ast.Ident); ok && strings.HasPrefix(sh, "other:") {
+		if _, ok := kv.Value.(*ast.Ident); ok && strings.HasPrefix(sh, "other:") {
 			sh = "local" // a local built in the body ("+deep" says whether elements were copied)
 		}
 		parts = append(parts, p.Src(kv.Key)+"="+sh)
